@@ -1,5 +1,8 @@
-(* C16 proofs. *)
-From Coq Require Import List NArith Bool Lia.
-From V Require Import C16.Model.
-Import ListNotations.
-Open Scope N_scope.
+(* C16 proofs: aggregation of the parts.
+   ProofsBase   sets-as-lists, Fetch vs. Matches (fetch_unaffected), soundness of changedInputKeys (changed_sound)
+   ProofsDep    dependencyState.update/delete keep the reverse index consistent
+   ProofsCommit what one run of handleChangedPrimaryInputEvents establishes under static key ownership
+   ProofsInv    invariant over all interleavings of mutations and deliveries; state_is_function
+   ProofsEvents every subscriber's stream replays to the contents
+   ProofsK5     purity of the table-driven transformations, satisfiable ownership, K5 witnesses *)
+From V Require Export C16.Model C16.ProofsBase C16.ProofsDep C16.ProofsCommit C16.ProofsInv C16.ProofsEvents C16.ProofsK5.
